@@ -65,3 +65,29 @@ func Has[K comparable, V any](m map[K]V, k K) bool { _, ok := m[k]; return ok }
 
 // Implies is logical implication.
 func Implies(a, b bool) bool { return !a || b }
+
+// RetInt / RetErr / RetBool / RetStr: result idx of the last call on this path
+// whose name contains s.
+func RetInt(s string, idx int) int     { return 0 }
+func RetErr(s string, idx int) error   { return nil }
+func RetBool(s string, idx int) bool   { return false }
+func RetStr(s string, idx int) string  { return "" }
+
+// NetDelta(&obj.field): net change applied to a lock-guarded integer field
+// inside the locked regions executed on this path (each region contributes
+// value-at-unlock minus value-at-lock).
+func NetDelta(p *int) int { return 0 }
+
+// CalledBefore: the first call matching a happened before the first call matching b.
+func CalledBefore(a, b string) bool { return false }
+
+// Ret is the generic form of RetInt / RetErr.
+func Ret[T any](s string, idx int) T { var z T; return z }
+
+// NthArg / NthRet: argument i / result i of the n-th call (0-based) on this
+// path whose name contains s.
+func NthArg[T any](s string, n int, i int) T { var z T; return z }
+func NthRet[T any](s string, n int, i int) T { var z T; return z }
+
+// DynPtrTo(ret, content): ret holds a non-nil pointer to the dynamic type of content.
+func DynPtrTo(ret any, content any) bool { return false }
